@@ -901,3 +901,6 @@ def run_c17(ctx):
     ctx.cov['exhaustive'] = True
     ctx.cov['explanation'] = ('exhaustive for the TLC configurations listed in tlc_runs (%d states, each replayed under 2 renderings); '
                               'random beyond them (%d sessions, %d rejected by TLC)' % (n_states, len(batch), len(total_bad)))
+    # behaviour beyond the listed property (DESIGN 10.6): the inverted index under the Browser
+    import conf_browserindex
+    ctx.extra('BrowserIndex', conf_browserindex.run, tlc.workdir('c17bix'))
